@@ -29,8 +29,21 @@ def main():
     except common.MachineryError as e:
         print("MACHINERY-ERROR property=%s: %s" % (pid, e))
         sys.exit(2)
-    except Exception:
+    except Exception as e:
         traceback.print_exc()
+        # An exception raised INSIDE the library under test, at a step where the harness (which runs clean on a tree where the property holds)
+        # does not expect one, is an observation about that tree, not a failure of the machinery: the check reports it as a violation with the
+        # traceback as witness.  Anything raised by the harness itself (or by TLC handling) stays a machinery error.
+        tb = traceback.extract_tb(e.__traceback__)
+        src = os.path.realpath(os.environ.get("BARRIL_SRC", "/repo/src"))
+        inner = tb[-1].filename if tb else ""
+        if inner and os.path.realpath(inner).startswith(src + os.sep) and not isinstance(e, (MemoryError, KeyboardInterrupt)):
+            step = next((f for f in reversed(tb) if "/harness/" in f.filename), None)
+            rep = common.Report(pid, a.tier)
+            rep.violation({"check": "the library raised where the harness does not expect it", "exception": type(e).__name__,
+                           "harness_step": "%s:%s" % (os.path.basename(step.filename), step.name) if step else ""},
+                          {"message": str(e)[:300], "traceback": traceback.format_exception(type(e), e, e.__traceback__)[-8:]})
+            sys.exit(rep.finish(rule="the run was cut short by an exception raised inside the library under test; everything explored until then is not reported"))
         print("MACHINERY-ERROR property=%s: unexpected exception in the harness" % pid)
         sys.exit(2)
     sys.exit(rc)
